@@ -16,6 +16,8 @@ def exec_run(wm_or_world, check, plan, knobs, ctx=None, keep_root=False, is_worl
     root = core.new_root()
     try:
         core.materialise(w, root)
+        if not is_world and wm_or_world.get("git"):
+            git_work_tree(root)
         before = core.read_world(root)
         res = core.run_breadlog(root, check=check, plan=plan, knobs=knobs)
         after = core.read_world(root)
@@ -30,6 +32,25 @@ def exec_run(wm_or_world, check, plan, knobs, ctx=None, keep_root=False, is_worl
     else:
         core.rm_root(root)
     return out
+
+
+def git_work_tree(root):
+    """Make proj/ a git work tree (one commit) whose index is stale for one tracked file - what most projects look like.
+    Anything that runs git on behalf of the tool sees a repository it might 'refresh'."""
+    import subprocess
+    proj = os.path.join(root, "proj")
+    env = {"PATH": "/usr/bin:/bin", "HOME": os.path.join(root, "outside"), "GIT_CONFIG_NOSYSTEM": "1", "GIT_AUTHOR_NAME": "dev",
+           "GIT_AUTHOR_EMAIL": "dev@example.invalid", "GIT_COMMITTER_NAME": "dev", "GIT_COMMITTER_EMAIL": "dev@example.invalid",
+           "GIT_AUTHOR_DATE": "1790000000 +0000", "GIT_COMMITTER_DATE": "1790000000 +0000"}
+    try:
+        for args in (["init", "-q"], ["add", "-A"], ["commit", "-q", "-m", "initial", "--no-gpg-sign"]):
+            subprocess.run(["git", "-C", proj] + args, env=env, check=True, stdout=subprocess.DEVNULL, stderr=subprocess.DEVNULL)
+    except (OSError, subprocess.CalledProcessError) as e:
+        raise core.HarnessError("cannot set up the git work tree: %s" % e)
+    for dp, _dn, fn in os.walk(os.path.join(proj, "src")):
+        for name in sorted(fn):
+            os.utime(os.path.join(dp, name), (1790000321, 1790000321))    # index entries are stale now
+            return
 
 
 def env_knobs(rng, knobs, unusable_tmp=False):
